@@ -378,8 +378,8 @@ Next == Step
 (* pools selected by the configurations (cfg files cannot hold negative numbers or records) *)
 QuickInts == {0 - 3, 0 - 1, 0, 1, 2, 7, 12}
 AllInts == (0 - 3)..12
-QuickDecs == {0 - 150, 0 - 50, 0, 10, 30, 150, 250}
-AllDecs == {0 - 250, 0 - 150, 0 - 70, 0 - 50, 0 - 10, 0, 10, 20, 30, 50, 70, 100, 150, 200, 250, 990}
+QuickDecs == {0 - 150, 0 - 50, 0, 10, 30, 150, 250, 770}         \* 7.7: its remainders by small integers are not binary fractions
+AllDecs == {0 - 250, 0 - 150, 0 - 70, 0 - 50, 0 - 10, 0, 10, 20, 30, 50, 70, 100, 150, 200, 250, 770, 990, 1010}
 QuickElems == {IntV(1), IntV(2), Dec(100), Str(<<"a">>), Str(<<"B">>), Nil, Bool(TRUE), Lst(<<IntV(2), Nil>>)}
 AllElems == QuickElems \cup {IntV(0 - 1), Dec(150), Str(<<"b">>), Bool(FALSE), IntV(0), Str(<<>>)}
 (* ---- the bounded families ------------------------------------------------------------------------- *)
